@@ -1,5 +1,6 @@
 import GoRes.Model.Pool
 import GoRes.Lemmas.Pool
+import GoRes.Lemmas.PoolHB
 /-! # C16 — no data race under any concurrent use the API permits (partial)
 
 What is logic here: every action of the pool model is one critical section of the service
@@ -15,12 +16,29 @@ on concurrent workloads over the whole public API (`./check C16`). -/
 namespace GoRes.Props.C16
 open GoRes.Pool
 
+/- `hd` (unique callback ids) is kept in the three statements below so that `c ∈ s.finished` names one
+callback; the proofs hold without it (the linter is silenced instead of renaming the binder).  What
+does need `hd` is the converse reading, `running_not_finished` / `finished_at_most_once` at the end. -/
+set_option linter.unusedVariables false
+
 /-- **a group's callbacks are totally ordered through the mutex**: in every reachable state, every
 started callback of a group except the most recent one has finished … -/
 theorem previous_callbacks_finished (acts : List Act) (s : St) (h : run init acts = some s)
     (hd : (s.accepted.map (·.2)).Nodup) (g : Nat) (hg : g ≠ 0) :
     ∀ c ∈ (cbsOf g s.started).dropLast, c ∈ s.finished := by
-  sorry
+  have hI := Inv.reachable h
+  obtain ⟨pre, h1, h2⟩ := (InvHB.reachable h).hb g hg
+  have hlen : (cbsOf g (runL s.workers)).length ≤ 1 := by
+    rw [length_cbsOf_runL]; have := hI.le g hg; omega
+  intro c hc
+  rw [h1] at hc
+  match hr : cbsOf g (runL s.workers), hlen with
+  | [], _ =>
+    rw [hr, List.append_nil] at hc
+    exact h2 c (List.dropLast_subset _ hc)
+  | [x], _ =>
+    rw [hr, List.dropLast_concat] at hc
+    exact h2 c hc
 
 /-- … and the most recent one is the one running now, if any is: when a callback of the group
 starts, all earlier ones of the group have already ended (their ends happen-before its start) -/
@@ -28,19 +46,44 @@ theorem running_is_most_recent (acts : List Act) (s : St) (h : run init acts = s
     (hd : (s.accepted.map (·.2)).Nodup) (i : Nat) (w : Work) (cb : Nat)
     (hw : s.workers[i]? = some (.running w cb)) (hg : w.wid ≠ 0) :
     (cbsOf w.wid s.started).getLast? = some cb := by
-  sorry
+  have hI := Inv.reachable h
+  obtain ⟨pre, h1, _⟩ := (InvHB.reachable h).hb w.wid hg
+  have hle : cntW w.wid s.workers ≤ 1 := by have := hI.le _ hg; omega
+  rw [h1, cbsOf_runL_running hw rfl hle]
+  simp
 
 /-- no callback of a group is running exactly when all its started callbacks have finished -/
 theorem idle_group_all_finished (acts : List Act) (s : St) (h : run init acts = some s)
     (hd : (s.accepted.map (·.2)).Nodup) (g : Nat) (hg : g ≠ 0)
     (hidle : ∀ (i : Nat) (w : Work) (cb : Nat), s.workers[i]? = some (WState.running w cb) → w.wid ≠ g) :
     ∀ c ∈ cbsOf g s.started, c ∈ s.finished := by
-  sorry
+  obtain ⟨pre, h1, h2⟩ := (InvHB.reachable h).hb g hg
+  have h0 : cntW g s.workers = 0 := by
+    simp only [cntW, List.countP_eq_zero]
+    intro ws hws hp
+    obtain ⟨i, hi⟩ := List.getElem?_of_mem hws
+    cases ws with
+    | running w cb => exact hidle i w cb hi (by simpa [isWS, wsWid] using hp)
+    | _ => simp [isWS, wsWid] at hp
+  rw [h1, cbsOf_runL_of_cnt h0, List.append_nil]
+  exact h2
 
 /-- a callback finishes only after it started, and at most once -/
 theorem finished_started (acts : List Act) (s : St) (h : run init acts = some s) :
-    ∀ c ∈ s.finished, c ∈ s.started.map (·.2) := by
-  sorry
+    ∀ c ∈ s.finished, c ∈ s.started.map (·.2) :=
+  (InvHB.reachable h).fin
+
+/-- with unique ids the running callback is not among the finished ones: "finished" in the theorems
+above really is an earlier end, not the current callback under a reused id (all groups, Parallel included) -/
+theorem running_not_finished (acts : List Act) (s : St) (h : run init acts = some s)
+    (hd : (s.accepted.map (·.2)).Nodup) (i : Nat) (w : Work) (cb : Nat)
+    (hw : s.workers[i]? = some (.running w cb)) : cb ∉ s.finished :=
+  GoRes.Pool.running_not_finished (Inv.reachable h) (InvHB.reachable h) hd hw
+
+/-- … and a callback finishes at most once -/
+theorem finished_at_most_once (acts : List Act) (s : St) (h : run init acts = some s)
+    (hd : (s.accepted.map (·.2)).Nodup) : s.finished.Nodup :=
+  finished_nodup (Inv.reachable h) (InvHB.reachable h) hd
 
 /-! ## non-vacuity -/
 example : ∃ s, run init [.serve 1, .subCheck 1 7 1 true, .subLock 1, .subSignal 1, .wStart 0,
